@@ -144,3 +144,12 @@ claim("C19",
       "expand_verified() runs for real and the result is checked with the C01 and C02 oracles, for leftover pack-offering verified "
       "classes, for rule objects shared with the original, and the original is re-checked.",
       "Trusted: as C01.", "CrossHair symbolic execution (pattern D: solver-enumerated universes) + z3", "DESIGN.md 2/C19")
+claim("C20",
+      "(a) direct z3 validity queries: the real get_equation of every rule form of the C09 configuration catalogue is called and the "
+      "returned sympy equation is interpreted in a polynomial ring whose coefficients are z3 integer unknowns (children) and the "
+      "reference semantics (parent); every coefficient identity is proved for all integer tables (cross-checked on z3 4.8.12). "
+      "(b) bounded exploration as C01: every equation of every returned specification is checked against brute-force series to "
+      "order 8, closed forms from get_genf to order 16.",
+      "Trusted: z3 (two versions), CrossHair, the ~80-line polynomial evaluator (validated on the equations tests/test_rule.py compares), "
+      "sympy's solve/series for closed forms, brute force through the DFA.",
+      "direct z3 validity queries on the real equations + CrossHair symbolic execution (pattern D)", "DESIGN.md 2/C20")
